@@ -465,7 +465,12 @@ func (info *decodeInfo) decodeCharString(code []byte) (*Glyph, error) {
 				if k < 0 {
 					return nil, errStackUnderflow
 				}
-				stack[k] = float64(int64(stack[k]) * int64(stack[k+1]) >> 16)
+				x := stack[k] * stack[k+1]
+				if math.Abs(x) >= 32768 {
+					// The specification leaves the result undefined.
+					return nil, invalidSince("type 2 arithmetic overflow")
+				}
+				stack[k] = x
 				stack = stack[:k+1]
 			case t2sqrt:
 				k := len(stack) - 1
